@@ -1,6 +1,7 @@
 package worlds
 
 import (
+	"os"
 	"fmt"
 	"sort"
 	"strings"
@@ -45,7 +46,7 @@ func genC15(r *h.Rng, tier string, idx int) *h.Plan {
 	for i := 0; i < n; i++ {
 		loc := r.Pick(locs)
 		id := r.Pick(ids)
-		switch r.Weighted([]int{9, 2, 1, 3, 1, 1, 1, 1, 1, 1}) {
+		switch r.Weighted([]int{9, 2, 1, 3, 1, 1, 1, 1, 1, 1, 3}) {
 		case 0:
 			var sched string
 			switch r.Intn(4) {
@@ -57,6 +58,11 @@ func genC15(r *h.Rng, tier string, idx int) *h.Plan {
 				sched = "*/2 * * * * * *"
 			default:
 				sched = "*/5 * * * * * *"
+			}
+			if p.Cfg["cron"] == "internal" && p.Cfg["ttl"] == "never" && strings.HasPrefix(sched, "+") {
+				// a relative delay is measured from each registration, and here
+				// every request registers again: use an absolute instant instead
+				sched = "!REL" + sched[1:len(sched)-1]
 			}
 			if prev, ok := lastSched[loc+"/"+id]; ok && r.P(1, 3) {
 				sched = prev // the same rule written again, unchanged schedule
@@ -70,7 +76,7 @@ func genC15(r *h.Rng, tier string, idx int) *h.Plan {
 				op.N = int64(r.Range(2, 9)) // ttl in seconds
 			}
 			// "each due tick evaluates that rule (condition, then actions)": none / holds / finds nothing
-			op.C = r.Weighted([]int{6, 2, 2})
+			op.C = r.Weighted([]int{6, 2, 2, 3}) // 3: the condition asks for the location's "gate" fact
 			p.Ops = append(p.Ops, op)
 		case 1:
 			p.Ops = append(p.Ops, h.Op{K: "addplain", Loc: loc, Id: id})
@@ -90,6 +96,10 @@ func genC15(r *h.Rng, tier string, idx int) *h.Plan {
 			p.Ops = append(p.Ops, h.Op{K: "staletick", Loc: loc, Id: id}) // a tick for an id arrives although nothing is registered (SimCron only)
 		case 9:
 			p.Ops = append(p.Ops, h.Op{K: "delete", Loc: loc}) // DeleteLocation: everything in it is gone, scheduled rules included
+		case 10:
+			// the fact that gated conditions ask for appears or disappears: a tick
+			// evaluates the condition in the location as it is at that moment
+			p.Ops = append(p.Ops, h.Op{K: "gate", Loc: loc, B: r.P(2, 3)})
 		}
 		sleep(100, 4000)
 	}
@@ -110,6 +120,7 @@ type c15Item struct {
 	dw      bool
 	fired   bool // one-shot known to have fired
 	condNo  bool // its condition finds nothing: ticks are evaluated, the action never runs
+	gated   bool // its condition holds while the location holds the "gate" fact
 	expires bool // `end` is an expiry instant: a tick due exactly then finds the rule expired
 }
 
@@ -175,7 +186,12 @@ func execC15(t *testing.T, plan *h.Plan, trace bool) *h.Result {
 		boot := func() {
 			var err error
 			ttl := sys.Forever
-			if plan.CfgS("ttl", "forever") == "never" && cronKind == "sim-persistent" {
+			if plan.CfgS("ttl", "forever") == "never" && cronKind != "sim-ephemeral" {
+				// (the in-memory cron with locations that leave the cache is a
+				// combination the System only accepts with RULES_CRON_OVERRIDE:
+				// every load registers the location's scheduled rules again, with
+				// the service that still holds the previous registrations)
+				os.Setenv("RULES_CRON_OVERRIDE", "1")
 				ttl = sys.Never
 			}
 			eng, err = hs.NewSvcEngine(hs.SvcConfig{State: state, TTL: ttl, MaxFacts: 100000}, store, mkCron())
@@ -188,6 +204,24 @@ func execC15(t *testing.T, plan *h.Plan, trace bool) *h.Result {
 		if xs, ok := plan.Cfg["locs"].([]interface{}); ok {
 			for _, x := range xs {
 				locs = append(locs, x.(string))
+			}
+		}
+		// per location: the instants at which the "gate" fact appeared (even index) and disappeared (odd index)
+		gateFlips := map[string][]time.Time{}
+		gateAt := func(loc string, at time.Time) bool {
+			on := false
+			for i, f := range gateFlips[loc] {
+				if f.After(at) {
+					break
+				}
+				on = i%2 == 0
+			}
+			return on
+		}
+		setGate := func(loc string, on bool, at time.Time) {
+			cur := len(gateFlips[loc])%2 == 1
+			if cur != on {
+				gateFlips[loc] = append(gateFlips[loc], at)
 			}
 		}
 		items := map[string]*c15Item{} // current item per loc/id
@@ -238,6 +272,9 @@ func execC15(t *testing.T, plan *h.Plan, trace bool) *h.Result {
 					}
 					if !due.After(regEnd) && due.After(reg.Add(-time.Nanosecond)) || (strings.HasPrefix(it.sched, "!") && !due.After(regEnd)) {
 						n = 1
+						if it.gated && !gateAt(strings.SplitN(it.marker, "/", 2)[0], due) {
+							n = 0
+						}
 					}
 				}
 				return n, n
@@ -250,7 +287,9 @@ func execC15(t *testing.T, plan *h.Plan, trace bool) *h.Result {
 				}
 				o := it.expr.Next(reg)
 				for !o.IsZero() && !o.After(regEnd) {
-					n++
+					if !it.gated || gateAt(strings.SplitN(it.marker, "/", 2)[0], o) {
+						n++
+					}
 					o = it.expr.Next(o)
 				}
 			}
@@ -275,6 +314,12 @@ func execC15(t *testing.T, plan *h.Plan, trace bool) *h.Result {
 				seen[loc+"|"+it.marker] = true
 				lo, hi := expected(it, now)
 				ticked := lo >= 1 // a tick that was due while the rule was registered has been delivered
+				if it.gated {
+					it.gated = false
+					l0, _ := expected(it, now)
+					it.gated = true
+					ticked = l0 >= 1
+				}
 				if it.condNo {
 					lo, hi = 0, 0
 				}
@@ -288,7 +333,7 @@ func execC15(t *testing.T, plan *h.Plan, trace bool) *h.Result {
 				if got < lo {
 					fail("tick-lost", "complete:"+schedKind(it), "%s: rule %s (schedule %q, registered %v, live until %s) has run %d times by +%v, expected %d", what, it.marker, it.sched, relTimes(it.regs, start), endStr(it, start), got, now.Sub(start), lo)
 				}
-				if it.oneShot && (got >= 1 || it.condNo && ticked) && it.end.IsZero() {
+				if it.oneShot && (got >= 1 || (it.condNo || it.gated) && ticked) && it.end.IsZero() {
 					// a one-shot rule is deleted once it has run
 					it.fired = true
 				}
@@ -303,7 +348,7 @@ func execC15(t *testing.T, plan *h.Plan, trace bool) *h.Result {
 			for key, it := range items {
 				if it.kind == "sched" && it.oneShot && it.fired {
 					loc := strings.SplitN(key, "/", 2)[0]
-					ids, _ := eng.Sys.ListRules(h.NewCtx(h.Prot{}), loc, false)
+					ids, _ := eng.Sys.ListRules(newCtx(), loc, false)
 					for _, id := range ids {
 						if loc+"/"+id == key {
 							fail("one-shot-rule-not-deleted", "oneshot", "%s: one-shot rule %s has run but is still listed", what, it.marker)
@@ -389,6 +434,9 @@ func execC15(t *testing.T, plan *h.Plan, trace bool) *h.Result {
 				case 2:
 					rule["condition"] = map[string]interface{}{"code": "false"}
 					it.condNo = true
+				case 3:
+					rule["condition"] = map[string]interface{}{"pattern": map[string]interface{}{"gate": "?g"}}
+					it.gated = true
 				}
 				_, err := eng.Sys.AddRule(ctxFor(), op.Loc, op.Id, h.Canon(rule))
 				if err != nil {
@@ -401,7 +449,7 @@ func execC15(t *testing.T, plan *h.Plan, trace bool) *h.Result {
 					it.end = now.Add(time.Duration(op.N) * time.Second).Truncate(time.Second)
 					it.expires = true
 				}
-				if op.B && !anchorLive(eng, op.Loc) {
+				if op.B && !anchorLive(eng, op.Loc, newCtx()) {
 					// deleteWith names an id that does not exist: stays
 				}
 				items[key] = it
@@ -426,6 +474,16 @@ func execC15(t *testing.T, plan *h.Plan, trace bool) *h.Result {
 			case "remrule":
 				eng.Sys.RemRule(ctxFor(), op.Loc, op.Id)
 				endItem(key, now)
+			case "gate":
+				if op.B {
+					if _, err := eng.Sys.AddFact(ctxFor(), op.Loc, "gate", `{"gate":"open"}`); err == nil {
+						setGate(op.Loc, true, now)
+					}
+				} else {
+					if _, err := eng.Sys.RemFact(ctxFor(), op.Loc, "gate"); err == nil {
+						setGate(op.Loc, false, now)
+					}
+				}
 			case "remanchor":
 				eng.Sys.RemFact(ctxFor(), op.Loc, "anchor")
 				for k, it := range items {
@@ -435,6 +493,7 @@ func execC15(t *testing.T, plan *h.Plan, trace bool) *h.Result {
 				}
 			case "clear":
 				eng.Sys.ClearLocation(ctxFor(), op.Loc)
+				setGate(op.Loc, false, now)
 				for k := range items {
 					if strings.HasPrefix(k, op.Loc+"/") {
 						endItem(k, now)
@@ -445,6 +504,7 @@ func execC15(t *testing.T, plan *h.Plan, trace bool) *h.Result {
 				}
 			case "delete":
 				eng.Sys.DeleteLocation(ctxFor(), op.Loc)
+				setGate(op.Loc, false, now)
 				for k := range items {
 					if strings.HasPrefix(k, op.Loc+"/") {
 						endItem(k, now)
@@ -539,8 +599,11 @@ func execC15(t *testing.T, plan *h.Plan, trace bool) *h.Result {
 	return res
 }
 
-func anchorLive(e *hs.SvcEngine, loc string) bool {
-	_, err := e.Sys.GetFact(h.NewCtx(h.Prot{}), loc, "anchor")
+// (every request of this world carries the "out" property: with a cache TTL of never
+// any request may be the one that loads a location and registers its scheduled rules,
+// whose actions then report through that request's context)
+func anchorLive(e *hs.SvcEngine, loc string, ctx *core.Context) bool {
+	_, err := e.Sys.GetFact(ctx, loc, "anchor")
 	return err == nil
 }
 
